@@ -12,7 +12,7 @@ RULE = ('(a) every forwards() call of the algebra drivers and of the declared wr
         'forwards_to_function (attribute / emulate=True / emulate=False), forwards_to_method (plain / emulate / dotted attribute), '
         'forwards_to_super (plain / emulate) and apply_forwards_to_super, retrieved bound (and through inspect when emulating) and '
         'really called on every call shape: accepted non-colliding shapes disjoint from the explicit names must not raise TypeError, '
-        'rejected ones must (when no defaulted outer positional, hide_* or partial is involved). Callees have up to four named parameters (drawn by kind profile), num_args also ends strictly inside a positional-only group, names of any of the wrapper\'s own parameters may recur in the callee, instances may be falsy, one apply_forwards_to_super decorator object is also applied to base class and subclass in turn. Non-trivial: a returned forwards() '
+        'rejected ones must (when no defaulted outer positional, hide_* or partial is involved). Callees have up to four named parameters (drawn by kind profile), num_args also ends strictly inside a positional-only group, names of any of the wrapper\'s own parameters may recur in the callee, instances may be falsy, one apply_forwards_to_super decorator object is also applied to base class and subclass in turn, dotted paths have up to three components. Non-trivial: a returned forwards() '
         'result, or a declared wrapper whose signature was retrieved; distinct by (signatures, declaration, form).')
 ASSUMPTIONS = ['wrappers passing foreign *other/**other are executed only when one fixed foreign value can satisfy the callee for all calls (C03 promises only "for some choice of the hidden arguments")',
                'class-level access of a forwards_to_method/forwards_to_super method returns the plain signature in Python 3 (the forger needs __self__); it is compared only when it differs from the plain one']
